@@ -41,7 +41,10 @@ pub fn lim(depth: usize, max_states: u64, max_secs: f64) -> Limits {
     // one wall-clock ceiling for every E-SEQ part of the thorough tier, so that the whole
     // thorough sweep of twenty properties stays runnable (and was run) in one sitting; the
     // depth bound is unchanged, a part that reaches the ceiling reports the last depth it closed
-    let max_secs = max_secs.min(PART_WALL_CEILING_S);
+    // VERIF_CAP_SCALE: experiment knob (not used by registered commands): stretches the wall
+    // caps when several detection runs share the machine, so that contention costs time, not depth
+    let scale: f64 = std::env::var("VERIF_CAP_SCALE").ok().and_then(|s| s.parse().ok()).unwrap_or(1.0);
+    let max_secs = max_secs.min(PART_WALL_CEILING_S) * scale;
     Limits {
         depth,
         max_states,
